@@ -13,6 +13,15 @@ WH_NOTE = ("trusted: Coq 8.16.1 kernel (no axioms: Print Assumptions is 'Closed 
            "execution; Vec/VecDeque/hashbrown/serde modelled by contract; archetype-table order is an oracle input")
 
 CLAIMED = {
+    "C18": dict(engine="constructors", note="CTOR_NOTE",
+                text="Proved over a model of the constructors whose control structure is regenerated from the source on every run "
+                     "(which functions build a World/Batch value, that from_raw_parts asserts before building, that new/default/"
+                     "with_resources/deserialize all reach it, that Batch::new asserts check_len and the only other constructor is "
+                     "unsafe): a world is returned iff the registry is duplicate-free (else panic), Batch::new returns iff all column "
+                     "lengths are equal (any number of columns incl. 0). Every duplicated registry x constructor and every small "
+                     "ragged batch is run on the real library and compared with the model.",
+                technique="Rocq proof over a constructor model parameterised by source-derived facts (translator) + exhaustive small-scope differential execution",
+                ref="DESIGN.md §7 C18"),
     "C07": dict(engine="schedules", note="SCHED_NOTE",
                 text="Proved over the scheduling model (stager + Stage::run/run_add_ons/Stages::run with has_run flags, tables regenerated "
                      "from the source): every accepted schedule runs every task exactly once and never hits a failing unchecked "
@@ -95,6 +104,10 @@ SCHED_NOTE = ("trusted: Coq 8.16.1 kernel (no axioms), tools/translate.py (decis
               "vm_compute) for the correspondence, Rust schedule harness + hook H2 (fork/join shim shadowing rayon in stage.rs), "
               "lib/sched.py; rayon join/bridge, hashbrown and rustc's trait solver modelled by contract; tasks atomic")
 
+CTOR_NOTE = ("trusted: Coq 8.16.1 kernel (no axioms), tools/translate_facts.py (structural facts regenerated into coq/Gen/Facts.v), "
+             "in-Coq evaluation of the model for the correspondence, generated Rust harness (harness/src/bin/ctor*.rs); "
+             "TypeId injectivity; serde_json as the deserializer")
+
 NA_REASON = "check under construction in this round (not yet registered); see DESIGN.md §7"
 
 
@@ -117,7 +130,7 @@ def main():
             "replay_cmd_template": "./check %s --replay {path}" % pid,
             "engine": c["engine"],
             "level_claimed": {"category": "proof", "text": c["text"], "design_ref": c["ref"]},
-            "level_note": SCHED_NOTE if c.get("note") == "SCHED_NOTE" else c.get("note", WH_NOTE),
+            "level_note": SCHED_NOTE if c.get("note") == "SCHED_NOTE" else CTOR_NOTE if c.get("note") == "CTOR_NOTE" else c.get("note", WH_NOTE),
             "technique": c["technique"],
         })
     engines = [
@@ -130,6 +143,8 @@ def main():
          "kind_free_text": "generated schedule family (one binary per schedule type) run through the fork/join shim in "
                            "deterministic orders and on real rayon pools; fork/join terms compared with the Gallina model "
                            "evaluated in Coq on the regenerated tables; sequential-reference, reachable-address and greedy-grouping oracles"},
+        {"name": "constructors", "path": "lib/props.py", "serves_properties": ["C18"],
+         "kind_free_text": "generated registries with one duplicated type x 4 constructors, all small column-length vectors through Batch::new"},
     ]
     m = {"version": 1,
          "setup_cmd": "./setup.sh",
